@@ -477,6 +477,23 @@ def targeted(rng, base, tier):
             next(iter(ar.values()))['model'] = 'fancy'
     add('unknown-region-model', regmodel,
         ['UnknownMaterialOrCorrelation'], unknown)
+
+    # an assignment that names a type which is not defined: a made-up name,
+    # and the name of a defined type in another letter case (type names are
+    # case-sensitive everywhere else)
+    def assign_unknown(c, t, r):
+        a = list(c['assign'][-1])
+        a[0] = 'nosuchtype'
+        c['assign'][-1] = a
+
+    def assign_case(c, t, r):
+        a = list(c['assign'][-1])
+        a[0] = a[0].swapcase()
+        c['assign'][-1] = a
+    add('assignment-names-undefined-type', assign_unknown,
+        ['UnknownMaterialOrCorrelation'], unknown)
+    add('assignment-names-type-in-other-case', assign_case,
+        ['UnknownMaterialOrCorrelation'], unknown)
     badpow = {'pow': 0}
 
     def negpow(c, t, r):
